@@ -314,23 +314,33 @@ fn check_entry_points(v: &dyn Val, loc: &mut Local, r: &mut Rng) -> Result<(), S
         Ok(a) => a,
         Err(_) => return Ok(()),
     };
+    // Every entry point must produce a well-formed document with the same element structure and
+    // the same payloads as to_string's (byte equality is not demanded: the property is about what
+    // the document says)
+    let want = parse(&a, loc).map_err(|e| format!("to_string: {} (document {:?})", e, a))?;
+    let same = |what: &str, got: &str, loc: &mut Local| -> Result<(), String> {
+        let p = parse(got, loc).map_err(|e| format!("{}: {} (document {:?})", what, e, got))?;
+        if p != want {
+            return Err(format!("{} produced {:?}, which differs in structure or payloads from to_string's {:?}", what, got, a));
+        }
+        Ok(())
+    };
     let b = v.se_to_writer().map_err(|e| format!("to_writer fails ({}) although to_string succeeds", e))?;
-    if a != b {
-        return Err(format!("to_writer produced {:?} but to_string {:?}", b, a));
-    }
+    same("to_writer", &b, loc)?;
     let mut c: Vec<u8> = Vec::new();
     v.se_to_io(&mut c).map_err(|e| format!("to_utf8_io_writer fails ({}) although to_string succeeds", e))?;
-    if a.as_bytes() != &c[..] {
-        return Err(format!("to_utf8_io_writer produced {:?} but to_string {:?}", String::from_utf8_lossy(&c), a));
-    }
-    // Writer::write_serializable with the tag the type would get anyway = to_string_with_root
+    let c = String::from_utf8(c).map_err(|_| "to_utf8_io_writer wrote bytes that are not UTF-8".to_string())?;
+    same("to_utf8_io_writer", &c, loc)?;
+    // Writer::write_serializable(tag, v) against to_string_with_root(tag, v)
     let tag = "w_root";
     let mut cfg = SerCfg::plain();
     cfg.root = Some(tag.to_string());
-    if let Ok(want) = v.ser(&cfg) {
+    if let Ok(w) = v.ser(&cfg) {
+        let want2 = parse(&w, loc).map_err(|e| format!("to_string_with_root: {} (document {:?})", e, w))?;
         let got = v.se_write_serializable(tag, None, false).map_err(|e| format!("Writer::write_serializable fails ({}) although to_string_with_root succeeds", e))?;
-        if got != want {
-            return Err(format!("Writer::write_serializable produced {:?} but to_string_with_root {:?}", got, want));
+        let p = parse(&got, loc).map_err(|e| format!("Writer::write_serializable: {} (document {:?})", e, got))?;
+        if p != want2 {
+            return Err(format!("Writer::write_serializable produced {:?}, which differs in structure or payloads from to_string_with_root's {:?}", got, w));
         }
         loc.write_serializable += 1;
     }
@@ -375,7 +385,7 @@ fn check_ser_only(gen: fn(&mut Rng) -> Box<dyn Val>, vseed: u64, cfg: &SerCfg, l
     }
 }
 
-pub const ROOT_POOL: &[&str] = &["", " ", "a b", "<", ">", "1a", "-a", "a>", "a<b", "@a", "$text", "x:y", "é", "ok", "a.b-c", "\u{0}", "a\"b", "a=b", "a/", "/a", ":", "_", "\u{FEFF}", "a\u{B7}"];
+pub const ROOT_POOL: &[&str] = &["", " ", "a b", "<", ">", "1a", "-a", "a>", "a<b", "@a", "$text", "x:y", "é", "ok", "a.b-c", "\u{0}", "a\"b", "a=b", "a/", "/a", ":", "_", "\u{FEFF}", "a\u{B7}", "é b", "é>", "é><evil/", "日 本", "日本", "Ωa/b", "éé", "é\"", "ж\u{0}"];
 
 fn run(ctx: &mut Ctx) {
     let mut loc = Local::default();
